@@ -41,18 +41,21 @@ def rule_r1(ctx: Ctx) -> None:
     scenarios = [
         ({"p1": F(1), "p2": F(3), "p3": F(2), "p4": F(2), "p5": F(1)}, F(1, 2), {"p1": F(2), "p2": F(0), "p3": F(4), "p4": F(0), "p5": F(2)}),
         ({"p1": F(1), "p2": F(1), "p3": F(0), "p4": F(5), "p5": F(5)}, F(1), {"p1": F(0), "p2": F(0), "p3": F(0), "p4": F(1), "p5": F(3)}),
+        # the extraction call (rate 1, extra = current weights) on a grammar whose second rule declares no weight at all: its productions count 1.0 each
+        ({"p1": F(1), "p2": F(3), "p3": F(1), "p4": F(1), "p5": F(1)}, F(1), {"p1": F(1), "p2": F(3), "p3": F(1), "p4": F(1), "p5": F(1)}, {"p3", "p4", "p5"}),
     ]
     bad = und = None
     n = 0
-    for raw, rate, extra in scenarios:
+    for raw, rate, extra, *rest in scenarios:
         stored: dict[str, dict] = {}
+        undeclared = rest[0] if rest else set()
 
-        def call_model(it, call, env, args, kwargs, raw=raw, stored=stored):
+        def call_model(it, call, env, args, kwargs, raw=raw, stored=stored, undeclared=undeclared):
             nm = call_name(call)
             if nm == "get_weights":
                 return {k: v for k, v in raw.items()} | {"START": F(1), "sub1": F(1)}
             if nm == "get_gengy" and len(args) == 1 and isinstance(args[0], Sym):
-                return stored.setdefault(args[0].tag, {"weight": raw.get(args[0].tag)})
+                return stored.setdefault(args[0].tag, {} if args[0].tag in undeclared else {"weight": raw.get(args[0].tag)})
             if nm in ("__init__", "register_type", "preprocess", "validate"):
                 return _NONE
             return None
@@ -79,7 +82,8 @@ def rule_r1(ctx: Ctx) -> None:
                     und = und or f"a path raises ({nm_})"
                 continue
             n += 1
-            scen = {"raw": {k: str(v) for k, v in raw.items()}, "learning_rate": str(rate), "extra": {k: str(v) for k, v in extra.items()}}
+            scen = {"raw": {k: str(v) for k, v in raw.items()}, "learning_rate": str(rate), "extra": {k: str(v) for k, v in extra.items()},
+                    "productions_without_declared_weight": sorted(undeclared)}
             for r, ps in rules.items():
                 tot = sum(raw[p_] + rate * extra[p_] for p_ in ps)
                 got_sum = F(0)
@@ -138,17 +142,14 @@ def _anc(n):
 def rule_r2(ctx: Ctx) -> None:
     prog, res = ctx.prog, ctx.res
     n = 0
+    from .common import weight_store_sites, weight_writers
     for f in prog.functions.values():
-        for nd in walk_local(f.node):
-            if isinstance(nd, (ast.Assign, ast.AugAssign)):
-                tg = nd.targets if isinstance(nd, ast.Assign) else [nd.target]
-                for t in tg:
-                    if isinstance(t, ast.Subscript) and isinstance(t.slice, ast.Constant) and t.slice.value == "weight":
-                        n += 1
-                        from .common import weight_writers
-                        ok = f.fullname in weight_writers(prog)
-                        ctx.ob("C19.R2", f, nd, "store to a production weight", ok,
-                               "" if ok else "production weights are rewritten outside the weight decorator / update_weights")
+        for nd in weight_store_sites(f):
+            n += 1
+            ok = f.fullname in weight_writers(prog)
+            ctx.ob("C19.R2", f, nd, "store to a production weight", ok,
+                   "" if ok else f"'{norm(nd)[:60]}' writes a production weight outside the weight decorator / update_weights: a grammar without declared "
+                                 f"weights becomes a weighted one, and extracting it again renormalises (1.0 each becomes 1/n)")
     # extract_grammar normalises exactly when a weight is declared (a declared weight of 0 is a declared weight): interpreted
     # on three declaration tables, the grammar object symbolic, its analysis passes stubbed
     from ..modelinterp import Budget, Effect, Interp, Sym, UNKNOWN, _NONE
@@ -330,7 +331,128 @@ def rule_r3(ctx: Ctx) -> None:
     ctx.floor("C19.R3", n, 3, "weighted-choice call sites")
 
 
+def rule_r5(ctx: Ctx) -> None:
+    """Every chooser that weighs its alternatives (a choose_production_alternatives that reaches choice_weighted) is interpreted on
+    three alternatives for declared weights with zeros in every position x minimum-depth tables x recursive sets x context depths
+    x heuristic targets.  choice_weighted returns an option of positive effective weight when there is one and otherwise falls
+    through to the first option (C18.R3), so the effective weights handed to it must satisfy: an alternative of declared weight 0
+    has effective weight 0, and when some offered alternative has a positive declared weight the effective weights are not all 0."""
+    from ..modelinterp import Budget, Interp, Obj, Sym, UNKNOWN
+    from .choosermodel import DIST_TABLES, REC_TABLES
+    prog = ctx.prog
+    n = 0
+    for f in prog.implementations(DECIDER, "choose_production_alternatives"):
+        reach = [f] + [g for g in (prog.lookup_method(f.cls, call_name(c)) for c in ast.walk(f.node)
+                                   if isinstance(c, ast.Call) and isinstance(c.func, ast.Attribute) and isinstance(c.func.value, ast.Name) and c.func.value.id == "self")
+                       if g is not None]
+        if not any(isinstance(c, ast.Call) and call_name(c) == "choice_weighted" for g in reach for c in ast.walk(g.node)):
+            continue
+        n += 1
+        alts = [Sym("x1"), Sym("x2"), Sym("x3")]
+        ps = [p_ for p_ in f.params if p_ != "self"]
+        alts_p = "alternatives" if "alternatives" in ps else (ps[-2] if len(ps) >= 2 else ps[0])
+        ctx_p = "ctx" if "ctx" in ps else ps[-1]
+        bad = und = None
+        runs_n = 0
+        for declared in ((0.0, 1.0, 1.0), (1.0, 0.0, 1.0), (0.0, 0.0, 1.0), (1.0, 1.0, 0.0), (0.0, 0.5, 0.5), (0.25, 0.25, 0.5)):
+            for dists in DIST_TABLES:
+                for rec in REC_TABLES:
+                    for depth in (0, 1, 5):
+                        for deepest in (max(dists), max(dists) + 2):
+                            if bad:
+                                break
+                            dist = {a.tag: d_ for a, d_ in zip(alts, dists)}
+                            wts = {a: w_ for a, w_ in zip(alts, declared)}
+                            captured: list = []
+
+                            def call_model(it, call, env, args, kwargs, dist=dist, wts=wts, captured=captured, deepest=deepest):
+                                nm = call_name(call)
+                                if nm == "get_distance_to_terminal" and len(args) == 1 and isinstance(args[0], Sym):
+                                    return dist.get(args[0].tag, UNKNOWN)
+                                if nm == "choice_weighted" and len(args) == 2 and isinstance(call.func, ast.Attribute):
+                                    captured.append((list(args[0]) if isinstance(args[0], list) else None, list(args[1]) if isinstance(args[1], list) else None))
+                                    return args[0][0] if isinstance(args[0], list) and args[0] else UNKNOWN
+                                if nm == "choice" and args and isinstance(args[0], list) and args[0]:
+                                    return args[0][0]
+                                if nm == "get_weights":
+                                    return {a_.tag: w_ for a_, w_ in wts.items()}      # the interpreter keys symbolic objects by their tag
+                                if nm == "get_max_node_depth":
+                                    return deepest
+                                if nm == "get_min_tree_depth":
+                                    return min(dist.values())
+                                return None
+
+                            it = Interp(prog, f.cls, lambda *_: None, call_model, max_depth=6, max_traces=4)
+                            it.heap[("grammar", "recursive_prods")] = [alts[i] for i in rec]
+                            env = {"self": Sym("self"), "self.max_depth": 4, "self.grammar": Sym("grammar"), "self.random": Sym("random"), alts_p: list(alts),
+                                   ctx_p: Obj("LocalSynthesisContext", {"depth": depth, "nodes": 1, "expansions": 0, "dependent_values": {}})}
+                            for p_ in ps:
+                                env.setdefault(p_, Sym(p_))
+                            try:
+                                runs = it.run(f, env)
+                            except Budget:
+                                und = und or "too many interpretations"
+                                continue
+                            if len(runs) != 1 or runs[0][2]:
+                                und = und or (runs[0][2][0] if runs and runs[0][2] else f"{len(runs)} interpretations")
+                                continue
+                            if any(e.kind == "raise" for e in runs[0][0]) or not captured:
+                                continue          # an assertion about the offer, or a path without a weighted choice
+                            opts, eff = captured[-1]
+                            if opts is None or eff is None or len(opts) != len(eff) or not all(isinstance(x, (int, float)) and not isinstance(x, bool) for x in eff) \
+                                    or not all(o in wts for o in opts):
+                                und = und or f"the weights handed to choice_weighted are not numbers in the model ({eff!r}, {opts!r})"
+                                continue
+                            runs_n += 1
+                            scen = (f"declared weights {dict((a.tag, w_) for a, w_ in wts.items())}, minimum depths {dist}, recursive {[alts[i].tag for i in rec]}, "
+                                    f"context depth {depth}, deepest symbol of the grammar {deepest}")
+                            wrong = [o for o, e_ in zip(opts, eff) if wts[o] == 0 and e_ > 0]
+                            if wrong:
+                                bad = f"with {scen} the alternative {wrong[0].tag} of declared weight 0 gets the effective weight {eff[opts.index(wrong[0])]}"
+                            elif any(wts[o] > 0 for o in opts) and not any(e_ > 0 for e_ in eff):
+                                first = opts[0]
+                                bad = (f"with {scen} every effective weight handed to choice_weighted is 0 ({eff}) although "
+                                       f"{[o.tag for o in opts if wts[o] > 0]} have a positive declared weight: the weighted choice falls through to the first "
+                                       f"alternative, {first.tag}" + (" - a production of declared weight 0" if wts[first] == 0 else ""))
+        ctx.ob("C19.R5", f, f.node, f"{f.cls.name if f.cls else f.qualname}: effective weights keep zeros at zero and never vanish while a positive-weight alternative is offered",
+               False if bad else (None if und else True), bad or und or "", witness={"scenarios": runs_n})
+    ctx.floor("C19.R5", n, 1, "weight-aware choosers")
+
+
+def rule_r6(ctx: Ctx) -> None:
+    """update_weights normalises rule by rule, which is only well defined when no production belongs to two rules.  The grammar
+    analysis is interpreted end to end (sa/rules/grammodel.py) on a model grammar with a production that has two abstract bases
+    (class Tagged(Shape, Named)): afterwards the production is listed under exactly one rule."""
+    from .grammodel import C, INT, ModelGrammar, interpret
+    g = ModelGrammar("a production with two abstract bases", "Top", {
+        "Top": ("concrete", None, [("s", C("Shape")), ("n", C("Named"))]),
+        "Shape": ("abstract", None, []), "Named": ("abstract", None, []),
+        "Circle": ("concrete", "Shape", [("r", INT)]), "Tagged": ("concrete", "Shape", [("t", INT)]), "Label": ("concrete", "Named", []),
+    }, ["Circle", "Tagged", "Label"], more_bases={"Tagged": ["Named"]})
+    gcls = ctx.prog.classes.get("geneticengine.grammar.grammar.Grammar")
+    reg = gcls.methods.get("register_type") if gcls else None
+    st, why = interpret(ctx, g, 0)
+    construct = "a production with two abstract bases (class Tagged(Shape, Named)) is listed under exactly one rule"
+    if st is None:
+        ctx.ob("C19.R6", reg, reg.node if reg else None, construct, None, f"grammar analysis not followed: {why}")
+        return
+    alts = st.get("self.alternatives")
+    if not isinstance(alts, dict):
+        ctx.ob("C19.R6", reg, reg.node if reg else None, construct, None, "the production table is not a dict in the model")
+        return
+    owners = sorted(str(getattr(k, "name", k)) for k, v in alts.items() if isinstance(v, list) and any(getattr(x, "name", None) == "Tagged" for x in v))
+    ok = len(owners) == 1
+    ctx.ob("C19.R6", reg, reg.node if reg else None, construct, ok,
+           "" if ok else (f"Tagged is listed under {owners}: update_weights divides its weight once per rule with different totals, so the rule normalised first "
+                          f"no longer sums to one, the declared ratios are lost and every further extraction changes the weights again" if owners else
+                          "Tagged is listed under no rule"))
+
+
 def run(ctx: Ctx) -> None:
+    ctx.rule("C19.R6", "rules are disjoint: a production with several abstract bases is registered under one rule only (per-rule normalisation is well defined)")
+    rule_r6(ctx)
+    ctx.rule("C19.R5", "weight-aware choosers never hand choice_weighted an all-zero vector while a positive-weight production is offered, and keep declared zeros at zero")
+    rule_r5(ctx)
     ctx.rule("C19.R1", "update_weights: per-rule reset / sum / divide / write-back; unweighted default exactly 1.0")
     ctx.rule("C19.R4", "the metadata decorators (weight, abstract) compose in either order: a declared weight survives")
     rule_r4(ctx)
@@ -339,5 +461,5 @@ def run(ctx: Ctx) -> None:
     rule_r1(ctx)
     rule_r2(ctx)
     rule_r3(ctx)
-    ctx.assumptions += ["each production class has one grammar parent (mro()[1]), so rules are disjoint and normalisation is idempotent",
+    ctx.assumptions += [
                         "weights are non-negative (user contract); floating-point rounding is not modelled"]
